@@ -76,11 +76,11 @@ def C07(ctx):
         if c['key'] in pred2:
             c['workpred'] = sorted(list(x) for x in pred2[c['key']])
     ctx.run(acc, nontrivial=lambda c: True, runtime=False, build=False, single=True)
-    big = ctx.export(G(4, 'f', ('set',)), pre_sample=400 if ctx.quick else None)
+    big = ctx.export(G(4, 'f', ('set',)), pre_sample=300 if ctx.quick else None)
     ctx.run(big, nontrivial=cyc, runtime=False)
     ctx.rules.append('split: the providers of every digraph (n=3; sample of n=4 in thorough) distributed over two sets joined by a set without providers of its own; '
                      'scaling: diamond lattices of depth 10/20/40 (2^40 paths) and chains of depth 50/150, with and without a back edge, each under a 20 s timeout (normal: well under 1 s)')
-    sp = ctx.export('FamilyGSplit(p, 3)', pre_sample=500 if ctx.quick else None)
+    sp = ctx.export('FamilyGSplit(p, 3)', pre_sample=300 if ctx.quick else None)
     ctx.run(sp, nontrivial=cyc, runtime=False)
     if not ctx.quick:
         ctx.run(ctx.export('FamilyGSplit(p, 4)', pre_sample=4000), nontrivial=cyc, runtime=False)
@@ -284,8 +284,8 @@ def C01(ctx):
     ctx.rules.append('every program of families T (result type a named type / alias of 20 Go type kinds, variadic injector), R (all flavours, n<=3), B, S, K-otherpkg, Q (legal signature shapes), M (sets over three packages), '
                      'U, X (several injectors in several files, foreign structs with unexported fields) for which gen reports success; non-trivial = success reported; '
                      'oracle: go build of the package with default tags, with a typed function-variable assignment per injector (signature identity), judged by TLC (wrote => built)')
-    exprs = [('FamilyT(p)', None), ('FamilyR(p, 3)', 200), ('FamilyB(p)', 200), ('FamilyS(p)', None), ('FamilyQ(p, 3)', None),
-             ('FamilyM(p, {1, 2, 3})', 150), ('FamilyU(p)', None), ('FamilyX(p, XVariants)', None), ('FamilyK(p, {"T1"})', 60), (G(3), 200)]
+    exprs = [('FamilyT(p)', None), ('FamilyR(p, 3)', 120), ('FamilyB(p)', 120), ('FamilyS(p)', None), ('FamilyQ(p, 3)', 200),
+             ('FamilyM(p, {1, 2, 3})', 80), ('FamilyU(p)', None), ('FamilyX(p, XVariants)', None), ('FamilyK(p, {"T1"})', 40), (G(3), 120)]
     nt = lambda c: verdict(c) != 'no'
     for expr, k in exprs:
         cases = ctx.export(expr, pre_sample=(k if ctx.quick else (k * 10 if k else None)))
@@ -350,13 +350,13 @@ def C19(ctx):
                      'wire show on the programs with named sets of families G, K, U, M compared with WireShow (included sets, outputs grouped by their external inputs, injector list); '
                      'command histories of WireCli with CkCheck; non-trivial = rejected programs (check must fail too) and sets with at least two output groups')
     nt = lambda c: verdict(c) == 'no' or any(len(s['groups']) >= 2 for s in (c.get('show') or {}).get('sets', []))
-    fams = [(G(3), 500), ('FamilyK(p, KTypes)', 250), ('FamilyQ(p, 3)', 472), ('FamilyB(p)', 250), ('FamilyU(p)', 100), ('FamilyGSplit(p, 3)', 400), ('FamilyX(p, XVariants)', 100)]
+    fams = [(G(3), 300), ('FamilyK(p, KTypes)', 150), ('FamilyQ(p, 3)', 250), ('FamilyB(p)', 150), ('FamilyU(p)', 100), ('FamilyGSplit(p, 3)', 200), ('FamilyX(p, XVariants)', 100)]
     for expr, k in fams:
         cases = ctx.export(expr, extends='WireShow', caseop='CaseShow', pre_sample=(k if ctx.quick else None))
         ctx.run(cases, nontrivial=nt, runtime=False, check=True, show=True)
-    m = ctx.export('FamilyM(p, {1, 2, 3})', extends='WireShow', caseop='CaseShow', pre_sample=150 if ctx.quick else 2500)
+    m = ctx.export('FamilyM(p, {1, 2, 3})', extends='WireShow', caseop='CaseShow', pre_sample=80 if ctx.quick else 2500)
     ctx.run(m, nontrivial=nt, runtime=False, check=True, show=True)
-    cli.run(ctx, (False, False, False, True), 25 if ctx.quick else 300, 10 if ctx.quick else 20)
+    cli.run(ctx, (False, False, False, True), 15 if ctx.quick else 300, 10 if ctx.quick else 20)
 
 
 PROPS = {
